@@ -1122,6 +1122,8 @@ class Interp:
             holder, key = f.locals, nm
         cur = holder.get(key)
         if isinstance(cur, VList) and ty.kind in ("seq", "list", "deque"):
+            if any(isinstance(x, (VOpt, VUnion)) for x in cur.items):
+                cur = VList([self.force(x) for x in cur.items])     # an optional already tested on this path is the value it holds
             holder[key] = VSeq(to_z3(cur, ty), ty.args[0])
         elif isinstance(cur, VSet) and cur.z is None and ty.kind == "set":
             holder[key] = VSet(z3.K(sort_of(ty.args[0]), z3.BoolVal(False)), ty.args[0])
@@ -1323,6 +1325,10 @@ class Interp:
             return VBoundExt(o, attr)
         if isinstance(o, VTuple) and o.ntfields and attr in o.ntfields:
             return o.items[o.ntfields.index(attr)]
+        if isinstance(o, VTuple) and o.ntfields and getattr(self.reg, "nt_strict_attrs", False) and not self.spec_mode \
+                and not hasattr(tuple, attr) and not attr.startswith("_"):
+            # opt-in: a namedtuple without this field raises AttributeError (e.g. RelayV1Hint().priority)
+            self.raise_("AttributeError", VStr(f"'{o.ntname}' object has no attribute '{attr}'"))
         if isinstance(o, VExt):
             if o.name.startswith("repo:"):
                 m2 = source.load_module(o.name[5:])
@@ -1591,6 +1597,14 @@ class Interp:
                 parts.append(z3.StringVal(p.value))
             else:
                 v = self.force(self.eval(p.value, fr))
+                if isinstance(v, VJson) and getattr(self.reg, "percent_json", False) and p.format_spec is None \
+                        and p.conversion in (-1, 115):
+                    # opt-in: str() of a JSON value never raises and is a function of the value: exact for str and int,
+                    # an uninterpreted function of the value otherwise (no fork)
+                    from .models import uf
+                    parts.append(z3.If(J.is_jstr(v.z), J.s(v.z), z3.If(J.is_jint(v.z), int_to_str(J.i(v.z)),
+                                                                         uf("json_str", J, StringS)(v.z))))
+                    continue
                 spec_s = None
                 if p.format_spec is not None and all(isinstance(x, ast.Constant) for x in p.format_spec.values):
                     spec_s = "".join(x.value for x in p.format_spec.values)
@@ -1801,6 +1815,11 @@ class Interp:
                         break
                     a = self.force(args[ai])
                     ai += 1
+                    if isinstance(a, VJson) and getattr(self.reg, "percent_json", False):
+                        # opt-in: a JSON value as %-argument is narrowed to its Python kind; %d of a non-number is CPython's TypeError
+                        a = self.json_narrow(a)
+                        if tk == "%d" and not isinstance(a, (VInt, VBool, VReal)):
+                            self.raise_("TypeError", VStr("%d format: a real number is required"))
                     if tk == "%d" and isinstance(a, VInt):
                         out.append(int_to_str(a.z))
                     elif tk == "%s" and isinstance(a, VStr) and a.kind == fmt.kind:
@@ -2039,7 +2058,10 @@ class Interp:
                 return r
             if not self.spec_mode and self.ctx.branch(z3.Not(z3.Select(o.present, kz)), "keyerror"):
                 self.raise_("KeyError", k)
-            return from_z3(z3.Select(o.val, kz), o.vt)
+            r = from_z3(z3.Select(o.val, kz), o.vt)
+            if not self.spec_mode and isinstance(r, VSet):
+                r.origin = (o, kz)       # d[k].add(x): the set is the map's value, mutations are written back (models.call_method)
+            return r
         if isinstance(o, (VList, VTuple)):
             ck = self.concrete(k)
             if ck is _NOCONST:
